@@ -290,7 +290,20 @@ class S:
         r = self.r
         if d <= 0 or r.random() < 0.35:
             return ("v", r.choice(snames)) if snames and r.random() < 0.55 else self.lit()
-        k = r.choice(["ite", "cat", "cat", "cat", "str", "str", "strs"])
+        k = r.choice(["ite", "cat", "cat", "cat", "str", "str", "strs", "fstr", "fstr", "fstr"])
+        if k == "fstr":
+            # f-string: literal text (no quote / brace / backslash) alternating with formatted int- or string-typed values; the model is
+            # sent what `_to_c_expr` makes of a JoinedStr: the left fold `String("lit") + String(e) + "lit" + …` (see `sx_expr`)
+            parts, want_lit = [], r.random() < 0.6
+            for _ in range(r.randint(1, 4)):
+                if want_lit:
+                    parts.append(("lit", "".join(r.choice(LIT_CHARS) for _ in range(r.randint(1, 4)))))
+                else:
+                    parts.append(("fv", ("v", r.choice(snames)) if snames and r.random() < 0.4 else G(r).int_expr(r.choice([0, 0, 1]), self.inames + list(ivars))))
+                want_lit = not want_lit if r.random() < 0.8 else False
+            if r.random() < 0.1:
+                parts = [pt for pt in parts if pt[0] == "lit"][:1] or parts      # an f-string without formatted values is a plain literal
+            return ("fstr", parts)
         if k == "ite":
             return ("ite", self.cond(), self.expr(d - 1, snames, ivars), self.expr(d - 1, snames, ivars))
         if k == "str":
@@ -319,7 +332,19 @@ class S:
 
 def cstr(e):
     """the emitted C++ expression is a `const char*` (mirrors `Expr.cstr`)"""
-    return e[0] == "s" or (e[0] == "ite" and cstr(e[2]) and cstr(e[3]))
+    return e[0] == "s" or (e[0] == "ite" and cstr(e[2]) and cstr(e[3])) or (e[0] == "fstr" and all(pt[0] == "lit" for pt in e[1]))
+
+
+def fstr_fold(parts):
+    """what the transpiler emits for a JoinedStr, as an expression tree: no formatted value -> one literal; otherwise the left fold of `+`
+    over the parts, a formatted value `{e}` being `str(e)` (emitted `String(e)`), a literal first part being wrapped by the `+` rule"""
+    if all(pt[0] == "lit" for pt in parts):
+        return ("s", "".join(pt[1] for pt in parts))
+    acc = None
+    for kind, x in parts:
+        nxt = ("s", x) if kind == "lit" else ("str", x)
+        acc = nxt if acc is None else ("bin", "add", acc, nxt)
+    return acc
 
 
 def add_strings(prog, ndecl, names, promote):
@@ -408,6 +433,7 @@ def py_expr(e):
     if k == "abs": return f"abs({py_expr(e[1])})"
     if k in ("min", "max"): return f"{k}({', '.join(py_expr(a) for a in e[1])})"
     if k == "str": return f"str({py_expr(e[1])})"
+    if k == "fstr": return 'f"' + "".join(x if kind == "lit" else "{" + py_expr(x) + "}" for kind, x in e[1]) + '"'
     if k == "raw": return e[1]
     raise ValueError(e)
 
@@ -474,6 +500,7 @@ def sx_expr(e):
     if k == "ite": return f"(ite {sx_expr(e[1])} {sx_expr(e[2])} {sx_expr(e[3])})"
     if k == "abs": return f"(abs {sx_expr(e[1])})"
     if k == "str": return f"(str {sx_expr(e[1])})"
+    if k == "fstr": return sx_expr(fstr_fold(e[1]))
     if k in ("min", "max"):
         acc = sx_expr(e[1][0])
         for a in e[1][1:]:
